@@ -248,7 +248,9 @@ pub fn judge(w: &World, run: &Run, focus: Option<&str>) -> (Verdict, RunInfo) {
     if m.ambiguous_sites > 0 {
         // try the alternative attributions of reads of unresolvable paths and keep the first
         // explanation that is consistent with the history and with the tree of parsed sources
-        let k = m.ambiguous_sites.min(6);
+        // the number of ambiguous sites met depends on the choices made before them, so the
+        // search is over choice vectors of a fixed length (sites beyond it default to "read")
+        let k = 8usize;
         let consistent = |m: &Model, run: &Run| -> bool {
             if !m.r2.is_empty() || m.truncated || !m.history_fully_explained() {
                 return false;
@@ -841,15 +843,16 @@ pub fn judge(w: &World, run: &Run, focus: Option<&str>) -> (Verdict, RunInfo) {
 
     // ------------------------------------------------------------------ reference run
     let r = run_reference(&m.flat);
-    if !r.history.is_empty() {
+    // (canonicalize calls are not constrained anywhere, see R2)
+    if let Some(c) = r.history.iter().find(|c| c.op != Op::Canon) {
         return (
             viol(
                 "R2",
                 C18,
                 "reference-touches-environment",
                 format!(
-                    "the flattened text has no file include left, yet analysing it made {} seam calls (first: {} `{}`)",
-                    r.history.len(), r.history[0].op.name(), r.history[0].path
+                    "the flattened text has no file include left, yet analysing it made seam call {} `{}`",
+                    c.op.name(), c.path
                 ),
             ),
             info,
